@@ -38,6 +38,12 @@ struct HistCfg {
     coalesce: u8,
     prepared: bool,
     seed: u64,
+    /// 0 none, 1 lz4, 2 snappy
+    compression: u8,
+    /// keep-alive OPTIONS requests interleave with the workload on the same connection
+    keepalive: bool,
+    /// framing-desync probe (see run_history)
+    desync_probe: bool,
 }
 
 #[derive(Clone, Debug)]
@@ -68,8 +74,15 @@ async fn run_history(cfg: &HistCfg) -> HistOut {
     let cluster = MockCluster::start(single_node_spec(), echo.clone()).await;
     let log = cluster.log().clone();
     let coalesce = cfg.coalesce;
+    let (compression, keepalive) = (cfg.compression, cfg.keepalive);
     let session = connect(&cluster, |b| {
         let b = b.pool_size(PoolSize::PerHost(NonZeroUsize::new(1).unwrap()));
+        let b = match compression {
+            1 => b.compression(Some(scylla::frame::Compression::Lz4)),
+            2 => b.compression(Some(scylla::frame::Compression::Snappy)),
+            _ => b,
+        };
+        let b = if keepalive { b.keepalive_interval(Duration::from_millis(3)).keepalive_timeout(Duration::from_secs(30)) } else { b };
         match coalesce {
             0 => b.write_coalescing(false),
             1 => b.write_coalescing(true),
@@ -99,6 +112,7 @@ async fn run_history(cfg: &HistCfg) -> HistOut {
     let cancelled: Arc<Mutex<HashSet<u64>>> = Arc::new(Mutex::new(HashSet::new()));
     let results: Arc<Mutex<HashMap<u64, OpRec>>> = Arc::new(Mutex::new(HashMap::new()));
     let mut handles = Vec::new();
+    let op_handles: Arc<Mutex<HashMap<u64, tokio::task::AbortHandle>>> = Arc::new(Mutex::new(HashMap::new()));
 
     let spawn_ops = |n: usize, rng: &mut Rng, handles: &mut Vec<tokio::task::JoinHandle<()>>| {
         for _ in 0..n {
@@ -118,7 +132,8 @@ async fn run_history(cfg: &HistCfg) -> HistOut {
             let log = log.clone();
             let cancelled = cancelled.clone();
             let results = results.clone();
-            handles.push(tokio::spawn(async move {
+            let oh = op_handles.clone();
+            let jh = tokio::spawn(async move {
                 call(&log, id, "echo", "");
                 let fut = echo_op(session, prepared, id);
                 let rec = match plan {
@@ -141,7 +156,9 @@ async fn run_history(cfg: &HistCfg) -> HistOut {
                     },
                 };
                 results.lock().unwrap().insert(id, rec);
-            }));
+            });
+            oh.lock().unwrap().insert(id, jh.abort_handle());
+            handles.push(jh);
         }
     };
 
@@ -153,6 +170,52 @@ async fn run_history(cfg: &HistCfg) -> HistOut {
         settle(&log, Duration::from_millis(60), Duration::from_secs(20), move || echo.held_count() + cancelled.lock().unwrap().len() >= target).await;
     }
     let mut held = echo.take_held();
+    // Framing-desync probe (some histories): the answer to X carries, appended to its payload, a complete
+    // well-formed response frame addressed to the stream of another waiting request Z, and is written in
+    // two TCP segments split right before that embedded frame, while callers of other requests are
+    // cancelled in between. A reader that loses its place in the byte stream hands Z the embedded frame.
+    if cfg.desync_probe {
+        let c = cancelled.lock().unwrap().clone();
+        let live: Vec<usize> = (0..held.len()).filter(|i| !c.contains(&held[*i].0)).collect();
+        if live.len() >= 4 {
+            let (xi, zi) = (live[0], live[1]);
+            let (x_id, z_stream) = (held[xi].0, held[zi].1.stream);
+            let x_stream = held[xi].1.stream;
+            let conn = held[xi].1.conn.clone();
+            let comp = conn.compression();
+            // embedded frame: an echo answer for a bogus id on Z's stream
+            let bogus = 0xDEAD_0000_0000u64 | (x_id & 0xffff);
+            let embedded = crate::wire::frame::response_frame(z_stream, 0x08, &Default::default(), &echo_response(bogus).encode_body(), comp);
+            let mut payload = echo_payload(x_id);
+            payload.extend_from_slice(&embedded);
+            let body = crate::wire::response::Response::Result(crate::wire::response::ResultBody::Rows {
+                metadata: crate::wire::response::ResultMetadata { columns: echo_cols(), paging_state: None, no_metadata: false, global_spec: true, new_metadata_id: None },
+                rows: vec![vec![Some((x_id as i64).to_be_bytes().to_vec()), Some(payload)]],
+            })
+            .encode_body();
+            // only meaningful uncompressed (a compressed body hides the embedded frame)
+            if comp.is_none() {
+                let frame = crate::wire::frame::response_frame(x_stream, 0x08, &Default::default(), &body, None);
+                let cut = frame.len() - embedded.len();
+                conn.outstanding.lock().unwrap().remove(&x_stream);
+                log.push(crate::mock::log::Ev::Send { node: 0, conn: conn.id, stream: x_stream, opcode: 0x08, bytes: frame.len(), written: frame.len(), tag: Some(x_id) });
+                conn.send_raw(frame[..cut].to_vec());
+                tokio::time::sleep(Duration::from_millis(2)).await;
+                // abandon some other in-flight requests right now
+                for i in live.iter().skip(2).take(6) {
+                    if let Some(h) = op_handles.lock().unwrap().get(&held[*i].0) {
+                        h.abort();
+                    }
+                }
+                tokio::time::sleep(Duration::from_millis(3)).await;
+                conn.send_raw(frame[cut..].to_vec());
+                tokio::time::sleep(Duration::from_millis(2)).await;
+                // X has been answered by hand
+                held.remove(xi);
+                log.push(crate::mock::log::Ev::Note("desync-probe-sent".into()));
+            }
+        }
+    }
     // withhold: prefer requests whose caller is already gone
     let mut withheld = Vec::new();
     let mut now = Vec::new();
@@ -221,7 +284,7 @@ fn rng_shuffle<T>(v: &mut [T], rng: &mut Rng) {
 
 fn judge(o: &mut Outcome, cfg: &HistCfg, h: &HistOut) {
     let replay = json!({"cfg": format!("{cfg:?}"), "seed": cfg.seed, "n1": cfg.n1, "n2": cfg.n2, "order": format!("{:?}", cfg.order),
-        "cancel_pm": cfg.cancel_pm, "withhold_pm": cfg.withhold_pm, "coalesce": cfg.coalesce, "prepared": cfg.prepared, "log_tail": h.log.tail_text(60)});
+        "cancel_pm": cfg.cancel_pm, "withhold_pm": cfg.withhold_pm, "coalesce": cfg.coalesce, "compression": cfg.compression, "keepalive": cfg.keepalive, "desync_probe": cfg.desync_probe, "prepared": cfg.prepared, "log_tail": h.log.tail_text(60)});
     if let Some(e) = &h.build_error {
         o.inconclusive(format!("history could not start: {e}"));
         return;
@@ -304,6 +367,13 @@ fn judge(o: &mut Outcome, cfg: &HistCfg, h: &HistOut) {
     o.class(&format!("order:{:?}", cfg.order));
     o.class(&format!("coalescing:{}", cfg.coalesce));
     o.class(if cfg.prepared { "stmt:prepared" } else { "stmt:unprepared" });
+    o.class(&format!("compression:{}", ["none", "lz4", "snappy"][cfg.compression as usize]));
+    if cfg.keepalive {
+        o.class("keepalive-frames-interleaved");
+    }
+    if evs.iter().any(|l| matches!(&l.ev, Ev::Note(n) if n == "desync-probe-sent")) {
+        o.class("desync-probe:embedded-frame-split-write-with-cancellations");
+    }
     o.note_add("ok_results", ok);
     o.note_add("error_results", errs);
     o.note_add("requests_seen_by_node", recv_ids.len() as u64);
@@ -336,6 +406,9 @@ fn gen_cfg(rng: &mut Rng, seed: u64, big: bool) -> HistCfg {
         coalesce: rng.below(3) as u8,
         prepared: rng.bool(),
         seed,
+        compression: *rng.pick(&[0u8, 0, 1, 2]),
+        keepalive: rng.chance(1, 3),
+        desync_probe: rng.chance(1, 3),
     }
 }
 
@@ -359,6 +432,9 @@ pub fn run_b(ctx: &Ctx) -> Outcome {
             coalesce: r["coalesce"].as_u64().unwrap_or(1) as u8,
             prepared: r["prepared"].as_bool().unwrap_or(false),
             seed: r["seed"].as_u64().unwrap_or(1),
+            compression: r["compression"].as_u64().unwrap_or(0) as u8,
+            keepalive: r["keepalive"].as_bool().unwrap_or(false),
+            desync_probe: r["desync_probe"].as_bool().unwrap_or(false),
         };
         // schedule-dependent: re-run the scripted history several times
         for _ in 0..10 {
@@ -423,7 +499,7 @@ pub fn run_b(ctx: &Ctx) -> Outcome {
     // exhaustion histories: more concurrent requests than stream ids, all answers withheld
     let n_exh = if ctx.quick() { 1 } else { 3 };
     for k in 0..n_exh {
-        let cfg = HistCfg { n1: 32768 + 300, n2: 50, order: Order::Random, cancel_pm: 0, withhold_pm: 0, coalesce: (k % 3) as u8, prepared: k % 2 == 1, seed: ctx.seed ^ (0xe0 + k) };
+        let cfg = HistCfg { n1: 32768 + 300, n2: 50, order: Order::Random, cancel_pm: 0, withhold_pm: 0, coalesce: (k % 3) as u8, prepared: k % 2 == 1, seed: ctx.seed ^ (0xe0 + k), compression: (k % 3) as u8, keepalive: false, desync_probe: false };
         let h = rt.block_on(run_history(&cfg));
         judge(&mut out, &cfg, &h);
     }
@@ -435,6 +511,7 @@ pub fn run_b(ctx: &Ctx) -> Outcome {
         "order:Reverse",
         "order:Random",
         "exhaustion:more-requests-than-stream-ids",
+        "desync-probe:embedded-frame-split-write-with-cancellations",
     ] {
         out.require_class(c);
     }
